@@ -15,6 +15,9 @@ DEFAULT = {
     "C07": ["C07"], "C08": ["C08"], "C09": ["C09"], "C10": ["C10"], "C11": ["C11"], "C12": ["C12"],
     "C13": ["C13"], "C14": ["C14"], "C15": ["C15"], "C16": ["C16"], "C17": ["C17"], "C18": ["C18"],
     "C19": ["C19"], "C20": ["C20"],
+    # second round: ids name the mechanism, several properties may be hit
+    "J": ["C02", "C03"], "B": ["C03", "C04"], "S": ["C02"], "O": ["C11", "C02"], "A": ["C08"], "P": ["C07"],
+    "W": ["C10"], "V": ["C09"], "L": ["C18", "C01"], "M": ["C06"], "D": ["C16"], "R": ["C20"], "E": ["C14", "C20"],
 }
 
 
@@ -51,6 +54,8 @@ def main():
             checks += [c for c in extra.split(",") if c and c in claimed and c not in checks]
             res["checks"] = {}
             for c in checks:
+                if res["checks"] and any(v["exit"] == 1 for v in res["checks"].values()) and os.environ.get("STOP_AT_FIRST", "1") == "1":
+                    break
                 rc, out = run([str(VERIF / "check"), c, "--tier", tier], cwd=VERIF, env=env0, timeout=3600)
                 res["checks"][c] = {"exit": rc, "violations": out.count("VIOLATION property="), "machinery": "MACHINERY" in out}
             res["detected_by"] = [c for c, v in res["checks"].items() if v["exit"] == 1]
